@@ -28,6 +28,8 @@ type RunReport struct {
 	WallS        float64                `json:"wall_s"`
 }
 
+var gSuffix string
+
 func writeFile(path, content string) {
 	if err := os.MkdirAll(filepath.Dir(path), 0o755); err != nil {
 		panic(err)
@@ -63,8 +65,10 @@ func main() {
 	oraclePath := fs.String("oracle", "", "path of the extracted-model oracle")
 	streamName := fs.String("stream", "", "stream name (shrink)")
 	file := fs.String("file", "", "replay file")
+	focus := fs.String("focus", "", "generator focus")
+	suffix := fs.String("suffix", "", "suffix of the report/cases file names")
 	fs.Parse(os.Args[2:])
-	_ = backend
+	gSuffix = *suffix
 	_ = replay
 	_ = prop
 	_ = tier
@@ -95,6 +99,9 @@ func main() {
 			j := (i*37 + 11) % len(r.pool)
 			rep.Samples = append(rep.Samples, map[string]interface{}{"a": gValue(r.pool[j]), "b": gValue(r.pool[(j+5)%len(r.pool)]), "impl_sign": r.signs[j][(j+5)%len(r.pool)]})
 		}
+	case "hist":
+		rep = runHistStream(*seed, *n, *out, *backend, *focus, *tier)
+		stream = "hist" + *suffix
 	case "shrink":
 		shrinkCase(*streamName, *seed, *n, *caseIdx, *out, *oraclePath, *prop, *tier)
 		return
